@@ -69,6 +69,16 @@ CLAIMED = {
         'Plus exhaustive ground evaluation (not counted as proof) of the real loader and look-ups over all 136 shipped XML files against an independent oracle: every interface x message x argument position, every enum value / zero / out-of-range / 2- and 3-unions of bitfield entries, every load order of the 109 multiply-described interfaces.',
    note='look_up_enum own loop is covered by the ground evaluation only (its contract towards callers is assumed); ElementTree and int(text, 0) are assumed; parse_* structural functions are exercised by the ground evaluation, not proved.',
    technique='contract-based deductive verification of the look-up functions + exhaustive ground evaluation over the shipped protocol data; z3'),
+ 'C13': dict(level='other', design='6.C13',
+   text='Sequential half only (DESIGN 6.C13): run_program under contract (child started before the first read, pipe read to end of input through into_sink, joined before prompting; total decoder); '
+        'file / pipe / run mode all hand their stream to the same parse.into_sink (contracts of the three entry functions); _Subprocess.run and the run-mode exit status by a bounded native stand-in on the real functions (argv list passed unmodified, WAYLAND_DEBUG=1, stderr only, no stdout/stdin keyword, exit status passed on).',
+   note='Everything quantified over schedules - write chunking, delays, process exit timing, the helper thread - is outside this technique and assumed through the readline and thread contracts; the stand-in is bounded (vectors over 15 words up to length 3, 7 or 256 exit statuses) and not counted as proved.',
+   technique='contract-based deductive verification of run_program and the entry functions + bounded native stand-in for _Subprocess.run / main exit status'),
+ 'C18': dict(level='other', design='6.C18',
+   text='Log-input half by contract: the reading loop raises nothing but UnicodeDecodeError and only for a strict decoder; all three input modes must establish a total decoder - this obligation failed at all three call sites on the pinned tree (undecodable bytes aborted the tool), a genuine defect repaired by a fix: commit; connections are closed by cleanup. '
+        'The matcher half (parse raises only RuntimeError; matches / str / simplify raise nothing) and the command half (process_command) are not yet under contract.',
+   note='Partial: see text. MemoryError, signals, broken output pipes are outside the claim.',
+   technique='contract-based deductive verification (raises clauses, reader precondition at call sites); native replay'),
 }
 
 NA_REASON = 'not yet built in this session (machinery under construction); see DESIGN.md section 6'
